@@ -84,7 +84,28 @@ class EdgeOdometry(BaseEdge):
             The error for the edge
 
         """
-        return (self.estimate - (self.vertices[1].pose - self.vertices[0].pose)).to_compact()
+        err = (self.estimate - (self.vertices[1].pose - self.vertices[0].pose)).to_compact()
+
+        # The quaternions q and -q represent the same rotation, so use the one with a non-negative scalar part
+        if self._negate_rotational_error():
+            err[3:] = -err[3:]
+
+        return err
+
+    def _negate_rotational_error(self):
+        r"""Check whether the :math:`SE(3)` error quaternion has a negative scalar part.
+
+        Returns
+        -------
+        bool
+            Whether the rotational part of the error (and of the Jacobians) must be negated so that the error does
+            not depend on the signs of the quaternions that are used to represent the poses and the measurement
+
+        """
+        if not isinstance(self.estimate, PoseSE3):
+            return False
+
+        return (self.estimate - (self.vertices[1].pose - self.vertices[0].pose))[6] < 0.0
 
     def calc_jacobians(self):
         r"""Calculate the Jacobian of the edge's error with respect to each constrained pose.
@@ -101,9 +122,16 @@ class EdgeOdometry(BaseEdge):
 
         """
         # fmt: off
-        return [np.dot(np.dot(self.estimate.jacobian_self_ominus_other_wrt_other_compact(self.vertices[1].pose - self.vertices[0].pose), self.vertices[1].pose.jacobian_self_ominus_other_wrt_other(self.vertices[0].pose)), self.vertices[0].pose.jacobian_boxplus()),
-                np.dot(np.dot(self.estimate.jacobian_self_ominus_other_wrt_other_compact(self.vertices[1].pose - self.vertices[0].pose), self.vertices[1].pose.jacobian_self_ominus_other_wrt_self(self.vertices[0].pose)), self.vertices[1].pose.jacobian_boxplus())]
+        jacobians = [np.dot(np.dot(self.estimate.jacobian_self_ominus_other_wrt_other_compact(self.vertices[1].pose - self.vertices[0].pose), self.vertices[1].pose.jacobian_self_ominus_other_wrt_other(self.vertices[0].pose)), self.vertices[0].pose.jacobian_boxplus()),
+                     np.dot(np.dot(self.estimate.jacobian_self_ominus_other_wrt_other_compact(self.vertices[1].pose - self.vertices[0].pose), self.vertices[1].pose.jacobian_self_ominus_other_wrt_self(self.vertices[0].pose)), self.vertices[1].pose.jacobian_boxplus())]
         # fmt: on
+
+        # See `calc_error`
+        if self._negate_rotational_error():
+            for jacobian in jacobians:
+                jacobian[3:] = -jacobian[3:]
+
+        return jacobians
 
     def to_g2o(self):
         """Export the edge to the .g2o format.
